@@ -321,6 +321,7 @@ func allSchemas() []named {
 			out = append(out, named{b.Name, "ctor", z})
 		}
 	}
+	out = append(out, fjsSchemas(fjsSeed(), fjsCount())...) // FromJSONSchema outputs (fjs.go)
 	allSchemasCache = out
 	return out
 }
